@@ -1,10 +1,90 @@
-import GoatSpec.MarkSpec
-import GoatSpec.Splice
-/-! # C02 — property theorems (instrumenter family); see DESIGN.md §6 -/
+import GoatSpec.Proofs.Splice
+import GoatSpec.Proofs.Text
+/-! # C02 — instrumentation is purely additive (text level: `doInsert`, increment.go:109).
+
+For every source, every sorted set of insert positions: the loop-faithful first pass equals
+"a block before each position", removing the block lines gives the source back line by line, the
+second pass only splits lines at a column (the characters of the user's lines are unchanged and
+in order), and the hand-maintained `deltaArray` moves each single-line position by exactly the
+lines inserted above it. go/printer's re-formatting and the import edit are below this model
+(assumptions A2, A3; end-to-end oracle). -/
 namespace GoatSpec.C02
 open GoatSpec
 
-/-- placeholder obligation replaced below by the real theorems of this property -/
-theorem blockHeight_eq : blockHeight = 4 := rfl
+/-- **first pass = specification**, for every source and strictly increasing positions -/
+theorem pass1_is_spec {α : Type} (block src : List α) (ps : List Nat) (h : Incr 1 ps) :
+    pass1 block 0 src ps = spec1 block 0 src ps :=
+  pass1_eq_spec1 block 0 src ps h
+
+/-- **additivity of the first pass**: with block lines recognisable and no user line a block
+    line, deleting the block lines from the output of the real loop gives the source back —
+    no user line altered, dropped, duplicated or reordered. -/
+theorem pass1_only_adds {α : Type} (block src : List α) (ps : List Nat) (h : Incr 1 ps)
+    (isBlock : α → Bool) (hb : ∀ b ∈ block, isBlock b = true) (hs : ∀ s ∈ src, isBlock s = false) :
+    (pass1 block 0 src ps).filter (fun x => !isBlock x) = src := by
+  rw [pass1_is_spec block src ps h]
+  exact spec1_filter block isBlock hb 0 src ps hs
+
+/-- exactly one block per position inside the file -/
+theorem pass1_block_count {α : Type} (block src : List α) (ps : List Nat) (h : Incr 1 ps)
+    (hn : ∀ p ∈ ps, p ≤ src.length) :
+    (pass1 block 0 src ps).length = src.length + block.length * ps.length := by
+  rw [pass1_is_spec block src ps h]
+  exact spec1_length block 0 src ps h (by simpa using hn)
+
+/-- **deltaArray = counting specification**: every single-line position is moved down by
+    `blockHeight · #{multi positions ≤ its line}` (loop-faithful model incl. early exit, pending
+    slot, `-1` slots and prefix sums), for all sorted inputs -/
+theorem shifts_spec (B n : Nat) (ms ss : List Nat) (hm : Incr 1 ms) (hs : Incr 1 ss)
+    (hn : ∀ m ∈ ms, m ≤ n) : shifts B n ms ss = ss.map (fun s => B * cntLe ms s) := by
+  have := scan_spec B n 0 ms ss 0 0 hm hs (by simpa using hn)
+  simpa [shifts] using this
+
+/-- **second pass only splits lines**: when it does not panic, the concatenated characters of
+    the output with the block lines taken out (pass 2 run with an empty block) are the
+    concatenated characters of its input, and the output with the real block has the same
+    user fragments. -/
+theorem pass2_chars (i : Nat) (src : List Line) (ps : List (Nat × Nat)) (out : List Line)
+    (h : pass2 [] i src ps = some out) : out.flatten = src.flatten := by
+  induction src generalizing i ps out with
+  | nil => cases ps <;> simp [pass2] at h <;> subst h <;> rfl
+  | cons s rest ih =>
+    cases ps with
+    | nil => simp [pass2] at h; subst h; rfl
+    | cons p ps =>
+      obtain ⟨l, c⟩ := p
+      simp only [pass2] at h
+      split at h
+      · split at h
+        · cases hr : pass2 [] (i+1) rest ps with
+          | none => simp [hr] at h
+          | some r =>
+            simp [hr] at h; subst h
+            have := ih (i+1) ps r hr
+            simp [List.flatten_cons, this, ← List.append_assoc, List.take_append_drop]
+        · cases h
+      · cases hr : pass2 [] (i+1) rest ((l, c) :: ps) with
+        | none => simp [hr] at h
+        | some r =>
+          simp [hr] at h; subst h
+          simp [List.flatten_cons, ih (i+1) _ r hr]
+
+/-- the block used by track is the extracted 4-line block: marker, tips, call, end
+    (re-checked against Extracted.lean on every run) -/
+theorem block_shape :
+    Extracted.packageInsertStmts.length = blockHeight
+    ∧ startsMk .generate (Extracted.packageInsertStmts.headD []) = true
+    ∧ startsMk .endm (Extracted.packageInsertStmts.getLastD []) = true
+    ∧ (Extracted.packageInsertStmts.getD 2 []) = Extracted.trackStmtPlaceHolder
+    ∧ (Extracted.packageInsertStmts.getD 1 []) = Extracted.trackTipsComment
+    ∧ (Extracted.mainEntryInsertData_AL_7.length = 4
+        ∧ startsMk .main (Extracted.mainEntryInsertData_AL_7.headD []) = true
+        ∧ startsMk .endm (Extracted.mainEntryInsertData_AL_7.getLastD []) = true) := by
+  decide
+
+/-- non-vacuity / concrete run of the loop-faithful passes -/
+example : pass1 ["B"] 0 ["a", "b", "c"] [2, 3] = ["a", "B", "b", "B", "c"] := by decide
+example : shifts 4 10 [2, 5] [2, 3, 9] = [4, 4, 8] := by decide
+example : pass2 [['B']] 0 [['x', 'y', 'z']] [(1, 3)] = some [['x', 'y'], ['B'], ['z']] := by decide
 
 end GoatSpec.C02
